@@ -141,7 +141,7 @@ func (b DBody) jsonMembers(legacyRefs map[string]bool, nlsep, ind string) []stri
 }
 
 func (b DBody) json(pretty bool) string {
-	legacy := map[string]bool{"ref": true}
+	legacy := map[string]bool{"ref": true, "dep": true}
 	if pretty {
 		return "{\n" + strings.Join(b.jsonMembers(legacy, "\n", "  "), ",\n") + "\n}\n"
 	}
@@ -270,7 +270,30 @@ func genDual(r *rand.Rand) DBody {
 		g.decls = append(g.decls, fmt.Sprintf("res.%s.%s", typ, name))
 	}
 	for i, n := 0, r.Intn(3); i < n; i++ {
-		b.Blocks = append(b.Blocks, DBlock{Type: "output", Labels: []string{fmt.Sprintf("o%d", i)}, Body: DBody{Attrs: []DAttr{{"value", g.strOrRef()}}}})
+		ob := DBody{Attrs: []DAttr{{"value", g.strOrRef()}}}
+		if r.Intn(3) == 0 {
+			ob.Attrs = append(ob.Attrs, DAttr{"dep", g.ref()})
+		}
+		b.Blocks = append(b.Blocks, DBlock{Type: "output", Labels: []string{fmt.Sprintf("o%d", i)}, Body: ob})
+	}
+	for i, n := 0, r.Intn(3); i < n; i++ {
+		kind := pick(r, []string{"role", "role", "plain"})
+		cb := DBody{Attrs: []DAttr{{"extra", g.strOrRef()}}}
+		if kind == "role" {
+			if r.Intn(2) == 0 {
+				cb.Attrs = append(cb.Attrs, DAttr{"role", g.ref()})
+			}
+			if r.Intn(2) == 0 {
+				cb.Attrs = append(cb.Attrs, DAttr{"alias", DExpr{Kind: "str", Str: "al"}})
+			}
+		}
+		if r.Intn(2) == 0 {
+			cb.Attrs = append(cb.Attrs, DAttr{fmt.Sprintf("free%d", i), g.strOrRef()})
+		}
+		if r.Intn(2) == 0 {
+			cb.Blocks = append(cb.Blocks, DBlock{Type: "sub", Body: DBody{Attrs: []DAttr{{"x", DExpr{Kind: "num", Str: "1"}}}}})
+		}
+		b.Blocks = append(b.Blocks, DBlock{Type: "cfg", Labels: []string{kind}, Body: cb})
 	}
 	return b
 }
